@@ -6,9 +6,11 @@ import ast
 from typing import Any, Dict, List
 
 from ..core import fde
+from ..core.classworld import ClassWorld
 from ..core.fde import Obj, Raised, Tag, Undecided
 from ..core.findings import Report
 from ..core.loader import AnalysisError, Repo, dotted, norm, qualname, short
+from .solverworld import solver_self, solver_world
 from .opc import Z3_FILE, z3_namespace
 
 SOLVER_FILE = "cspuz/solver.py"
@@ -40,18 +42,19 @@ def check_z3_backend(repo: Repo, rep: Report) -> None:
     init = mod.func("Z3Backend.__init__")
     addc = mod.func("Z3Backend.add_constraint")
 
+    state: Dict[str, Any] = {}
+
     def world(extra: Dict[str, Any]):
         ns = z3_namespace()
         if "__compare__" in extra:
             ns = _lenient(ns)
         ns.update(extra)
-        ev = fde.Evaluator(ns)
-        genv: Dict[str, Any] = {"Op": Tag("Op"), "z3": Tag("z3"), "importlib": Tag("importlib"),
-                                "TypeError": lambda *a: Tag("TypeError")}
-        for q, f in mod.funcs.items():
-            if "." not in q:
-                genv[q] = fde.FunctionValue(f, ev, genv)
-        return ev, genv
+        cw = ClassWorld([mod], extra_funcs=ns, pre_env={"Op": Tag("Op"), "z3": Tag("z3"), "importlib": Tag("importlib")})
+        state["cw"] = cw
+        return cw.ev, cw.genv
+
+    def mkself(**attrs: Any) -> Obj:
+        return state["cw"].adopt(Obj(["Z3Backend"], **attrs), "Z3Backend")
 
     def mkvar(cls: str, vid: int, lo: int = 0, hi: int = 0) -> Obj:
         base = "BoolExpr" if cls == "BoolVar" else "IntExpr"
@@ -70,7 +73,7 @@ def check_z3_backend(repo: Repo, rep: Report) -> None:
 
         ev, genv = world({"z3.Bool": mk("Bool"), "z3.Int": mk("Int")})
         vs = [mkvar("IntVar", 0, 0, 2), mkvar("BoolVar", 1), mkvar("BoolVar", 2), mkvar("IntVar", 3, -1, -1)]
-        selfo = Obj(["Z3Backend"], name="self")
+        selfo = mkself(name="self")
         fde.FunctionValue(init, ev, genv, self_obj=selfo)(vs)
         vd = selfo.attrs.get("variables_dict")
         okay = isinstance(vd, dict) and set(vd) == {0, 1, 2, 3}
@@ -107,7 +110,7 @@ def check_z3_backend(repo: Repo, rep: Report) -> None:
                 ms = _MockSolver(Tag("z3.unsat"), {})
                 ev.funcs["z3.Solver"] = lambda ms=ms: ms.obj
                 iv, bv = mkvar("IntVar", 0, lo, hi), mkvar("BoolVar", 1)
-                selfo = Obj(["Z3Backend"], variables=[bv, iv], variables_dict={0: v, 1: Tag("bterm")},
+                selfo = mkself(variables=[bv, iv], variables_dict={0: v, 1: Tag("bterm")},
                             converted_constraints=[], name="self")
                 fde.FunctionValue(solve, ev, genv, self_obj=selfo)()
                 bools = [a for a in ms.added if isinstance(a, bool)]
@@ -138,7 +141,7 @@ def check_z3_backend(repo: Repo, rep: Report) -> None:
         ev.funcs["z3.is_true"] = lambda x: x is True
         iv, bv = mkvar("IntVar", 0, 0, 2), mkvar("BoolVar", 1)
         c0 = Tag("converted-c0")
-        selfo = Obj(["Z3Backend"], variables=[iv, bv], variables_dict={0: Tag("iterm"), 1: Tag("bterm")},
+        selfo = mkself(variables=[iv, bv], variables_dict={0: Tag("iterm"), 1: Tag("bterm")},
                     converted_constraints=[c0], name="self")
         r = fde.FunctionValue(solve, ev, genv, self_obj=selfo)()
         if r is False and not iv.stores and not bv.stores:
@@ -163,7 +166,7 @@ def check_z3_backend(repo: Repo, rep: Report) -> None:
             ms = _MockSolver(Tag("z3.sat"), {it: num, bt: bval})
             ev.funcs["z3.Solver"] = lambda ms=ms: ms.obj
             iv, bv = mkvar("IntVar", 0, 0, 2), mkvar("BoolVar", 1)
-            selfo = Obj(["Z3Backend"], variables=[iv, bv], variables_dict={0: it, 1: bt},
+            selfo = mkself(variables=[iv, bv], variables_dict={0: it, 1: bt},
                         converted_constraints=[], name="self")
             r = fde.FunctionValue(solve, ev, genv, self_obj=selfo)()
             got_i, got_b = iv.attrs.get("sol"), bv.attrs.get("sol")
@@ -319,11 +322,8 @@ def check_variable_identity(repo: Repo, rep: Report) -> None:
         fn = smod.func(meth)
         rep.saw(SOLVER_FILE, meth)
         try:
-            ev = fde.Evaluator()
-            genv: Dict[str, Any] = {"warnings": Tag("warnings"), "config": Tag("config")}
-            for q, f in smod.funcs.items():
-                if "." not in q:
-                    genv[q] = fde.FunctionValue(f, ev, genv)
+            cw = solver_world(repo)
+            ev, genv = cw.ev, cw.genv
             verdict = Tag("verdict-of-backend.solve()")
             log: List[Any] = []
 
@@ -333,7 +333,7 @@ def check_variable_identity(repo: Repo, rep: Report) -> None:
                            solve=lambda: (log.append(("solve",)), verdict)[1], name="backend")
 
             vars_, cons = [Tag("v0"), Tag("v1")], [Tag("c0"), Tag("c1"), Tag("c2")]
-            selfo = Obj(["Solver"], variables=vars_, constraints=cons, is_answer_key=[False, False], name="self")
+            selfo = solver_self(cw, variables=vars_, constraints=cons, is_answer_key=[False, False], name="self")
             r = fde.FunctionValue(fn, ev, genv, self_obj=selfo)(backend_type)
             news = [x for x in log if x[0] == "new"]
             added: List[Any] = []
